@@ -283,7 +283,14 @@ macro_rules! exec_prod_impl {
             let pts: Vec<$A> = op["points"].as_array().unwrap().iter().map(|x| j_to_aff::<$G>(x)).collect();
             let sc = scalars_of(&op["scalars"]);
             let scr: Vec<&[u64; 4]> = sc.iter().collect();
-            vec![<$A>::sum_of_products(&pts, &scr)]
+            let mut v = vec![<$A>::sum_of_products(&pts, &scr)];
+            // the bucket method with explicit windows (word-straddling windows among them)
+            if let Some(ws) = op.get("windows").and_then(|w| w.as_array()) {
+                for w in ws {
+                    v.push(<$A>::sum_of_products_pippinger(&pts, &scr, w.as_u64().unwrap() as usize));
+                }
+            }
+            v
         }
         // the precomputation tables are points handed out to the caller as well (and fed back)
         "precomp" => {
@@ -419,11 +426,42 @@ where
     }
 }
 
+/// a sink that accepts at most `chunk` bytes per write call (pipes and sockets do that)
+struct ChunkWr {
+    buf: Vec<u8>,
+    chunk: usize,
+}
+impl std::io::Write for ChunkWr {
+    fn write(&mut self, b: &[u8]) -> std::io::Result<usize> {
+        let n = std::cmp::min(b.len(), self.chunk);
+        self.buf.extend_from_slice(&b[..n]);
+        Ok(n)
+    }
+    fn flush(&mut self) -> std::io::Result<()> {
+        Ok(())
+    }
+}
 fn st_write<T: SerDes>(st: &mut MiscState, v: &T, c: bool) -> Value {
     let before = st.wbuf.len();
     let r = v.serialize(&mut st.wbuf, c);
+    let n = st.wbuf.len() - before;
+    // the same value into sinks that take the bytes in pieces, and into slices that are too small
+    let mut sinks = vec![];
+    for chunk in [1usize, 7, 47, 95].iter() {
+        let mut w = ChunkWr { buf: vec![], chunk: *chunk };
+        let rr = v.serialize(&mut w, c);
+        sinks.push(json!({"kind": "chunked", "res": if rr.is_ok() {"ok"} else {"err"}, "bytes": bytes_to_j(&w.buf)}));
+    }
+    if r.is_ok() && n > 0 {
+        for short in [n - 1, n / 2, 0].iter() {
+            let mut space = vec![0u8; *short];
+            let mut sl: &mut [u8] = &mut space[..];
+            let rr = v.serialize(&mut sl, c);
+            sinks.push(json!({"kind": "too-small", "res": if rr.is_ok() {"ok"} else {"err"}, "bytes": []}));
+        }
+    }
     json!({"res": if r.is_ok() {"ok"} else {"err"},
-           "bytes": bytes_to_j(&st.wbuf[before..])})
+           "bytes": bytes_to_j(&st.wbuf[before..]), "sinks": sinks})
 }
 /// a reader that hands out at most `chunk` bytes per read call (pipes and sockets do that)
 struct Chunked<'a> {
